@@ -28,6 +28,7 @@ import (
 	"github.com/AdguardTeam/AdGuardHome/internal/dhcpsvc"
 	"github.com/AdguardTeam/AdGuardHome/internal/filtering"
 	"github.com/AdguardTeam/AdGuardHome/internal/filtering/rulelist"
+	"github.com/AdguardTeam/AdGuardHome/internal/filtering/safesearch"
 	"github.com/AdguardTeam/AdGuardHome/internal/querylog"
 	"github.com/AdguardTeam/AdGuardHome/internal/schedule"
 	"github.com/AdguardTeam/AdGuardHome/internal/stats"
@@ -174,6 +175,12 @@ func (d *vfDHCP) MACByIP(ip netip.Addr) (mac net.HardwareAddr) {
 	return d.macByIP[ip]
 }
 
+// vfNoChecker is a hash-prefix checker double that never blocks.
+type vfNoChecker struct{}
+
+// Check implements the [filtering.Checker] interface for vfNoChecker.
+func (vfNoChecker) Check(_ string) (block bool, err error) { return false, nil }
+
 // vfListConf is one filter list of a world.
 type vfListConf struct {
 	Rules   []string
@@ -225,6 +232,12 @@ type vfWorldConf struct {
 	QLogMemSize    uint
 	FindClient     func(ids []string) (c *querylog.Client, err error)
 	ShouldCountCli func(ids []string) (ok bool)
+
+	// WithSafeSearch configures the default safe-search service as home does.
+	WithSafeSearch bool
+
+	// SafeFS are the safe patterns for local filter-list files.
+	SafeFS []string
 
 	// HTTPRegister, if set, receives the handler registrations of all modules.
 	HTTPRegister func(method, url string, handler http.HandlerFunc)
@@ -373,11 +386,33 @@ func vfNewWorld(c *vfWorldConf) (w *vfWorld, err error) {
 		Filters:              blockY,
 		WhitelistFilters:     allowY,
 		UserRules:            c.UserRules,
+		SafeFSPatterns:       c.SafeFS,
 		BlockedResponseTTL:   ttl,
 		FilteringEnabled:     c.FilteringEnabled,
 		ProtectionEnabled:    c.ProtectionEnabled,
 		ProtectionDisabledUntil: c.DisabledUntil,
 		CacheTime:            30,
+	}
+
+	// hash-prefix checkers that never block (the real ones need the network)
+	fconf.SafeBrowsingChecker = vfNoChecker{}
+	fconf.ParentalControlChecker = vfNoChecker{}
+	fconf.SafeBrowsingBlockHost = "standard-block.dns.adguard.com"
+	fconf.ParentalBlockHost = "family-block.dns.adguard.com"
+
+	if c.WithSafeSearch {
+		fconf.SafeSearchConf = filtering.SafeSearchConfig{
+			Bing: true, DuckDuckGo: true, Ecosia: true, Google: true, Pixabay: true, Yandex: true, YouTube: true,
+		}
+		fconf.SafeSearch, err = safesearch.NewDefault(ctx, &safesearch.DefaultConfig{
+			Logger:         logger,
+			ServicesConfig: fconf.SafeSearchConf,
+			CacheSize:      1 << 20,
+			CacheTTL:       30 * time.Minute,
+		})
+		if err != nil {
+			return nil, fmt.Errorf("VERIF-INCONCLUSIVE safesearch: %w", err)
+		}
 	}
 
 	w.flt, err = filtering.New(fconf, nil)
@@ -579,6 +614,13 @@ func (w *vfWorld) newPCtx(q vfQuery) (pctx *proxy.DNSContext) {
 	req.Question = []dns.Question{{Name: q.Name, Qtype: q.Qtype, Qclass: dns.ClassINET}}
 
 	w.nextID++
+
+	return w.newPCtxWith(q, req, w.nextID)
+}
+
+// newPCtxWith is newPCtx with the request message and the request ID given by
+// the caller; it does not touch shared state and is safe for concurrent use.
+func (w *vfWorld) newPCtxWith(q vfQuery, req *dns.Msg, id uint64) (pctx *proxy.DNSContext) {
 	proto := q.Proto
 	if proto == "" {
 		proto = proxy.ProtoUDP
@@ -587,7 +629,7 @@ func (w *vfWorld) newPCtx(q vfQuery) (pctx *proxy.DNSContext) {
 		Proto:     proto,
 		Req:       req,
 		Addr:      q.Addr,
-		RequestID: w.nextID,
+		RequestID: id,
 	}
 	if q.Addr.IsValid() {
 		pctx.IsPrivateClient = netutil.IsLocallyServed(q.Addr.Addr())
